@@ -316,3 +316,39 @@ func vWaitUntil(d time.Duration, cond func() bool) bool {
 		time.Sleep(time.Millisecond)
 	}
 }
+
+// vLoadReplayPlans collects every C01-style plan (an object with "mutant_hex") found in the replay file.
+func vLoadReplayPlans() []c01Plan {
+	var out []c01Plan
+	b, err := os.ReadFile(vEnv.replay)
+	if err != nil {
+		return nil
+	}
+	var root interface{}
+	if json.Unmarshal(b, &root) != nil {
+		return nil
+	}
+	var walk func(v interface{})
+	walk = func(v interface{}) {
+		switch x := v.(type) {
+		case map[string]interface{}:
+			if _, ok := x["mutant_hex"]; ok {
+				bb, _ := json.Marshal(x)
+				var p c01Plan
+				if json.Unmarshal(bb, &p) == nil {
+					out = append(out, p)
+				}
+				return
+			}
+			for _, k := range x {
+				walk(k)
+			}
+		case []interface{}:
+			for _, k := range x {
+				walk(k)
+			}
+		}
+	}
+	walk(root)
+	return out
+}
